@@ -67,6 +67,8 @@ type specGen struct {
 	formats map[string][]string
 	schemas M
 	nschema int
+	// sharedErr: error responses mostly reference one shared schema (what real documents do)
+	sharedErr bool
 }
 
 func (g *specGen) pick(xs ...string) string { return xs[g.rng.Intn(len(xs))] }
@@ -340,11 +342,21 @@ func (g *specGen) operation(id string, pathParams []string, allowBody bool, secN
 		op["requestBody"] = g.body()
 	}
 	resp := M{g.pick("200", "200", "201", "204", "2XX"): g.response()}
-	if g.chance(40) {
-		resp[g.pick("400", "404", "4XX", "5XX", "500")] = g.response()
+	// error responses: own content, or the one error schema the whole document shares
+	errResp := func() M {
+		if g.sharedErr && g.chance(70) {
+			if _, ok := g.schemas["SharedErr"]; !ok {
+				g.schemas["SharedErr"] = M{"type": "object", "required": []any{"message"}, "properties": M{"message": M{"type": "string"}, "code": M{"type": "integer"}}}
+			}
+			return M{"description": "error", "content": M{"application/json": M{"schema": M{"$ref": "#/components/schemas/SharedErr"}}}}
+		}
+		return g.response()
+	}
+	for i := 0; i < g.rng.Intn(3); i++ {
+		resp[g.pick("400", "404", "4XX", "5XX", "500", "409")] = errResp()
 	}
 	if g.chance(50) {
-		resp["default"] = g.response()
+		resp["default"] = errResp()
 	}
 	op["responses"] = resp
 	if len(secNames) > 0 && g.chance(50) {
@@ -368,6 +380,7 @@ func (g *specGen) operation(id string, pathParams []string, allowBody bool, secN
 
 func randomSpec(rng *ev.Rand, formats map[string][]string) string {
 	g := &specGen{rng: rng, formats: formats, schemas: M{}}
+	g.sharedErr = g.chance(50)
 	doc := M{"openapi": "3.0.3", "info": M{"title": "random", "version": "1"}}
 	secSchemes := M{}
 	var secNames []string
